@@ -100,12 +100,17 @@ PROPS['C06'] = dict(
 
 PROPS['C15'] = dict(
     title='Spelling corruption makes one bounded edit and never touches protected positions',
-    groups=[dict(template='c15_providers.rs')],
+    groups=[dict(template='c15_providers.rs'), dict(template='c15_edit_word.rs', rlimit=100)],
     input_search=True,
-    claim="InsertEdits/ReplaceEdits::get_edits: no arithmetic fault for every position and word (incl. position 0 and the empty word for insert), the looked-up context is (previous character or <bow>, character or <eow>[, next or <eow>]); DeleteEdits/SwapEdits::can_edit: true only inside the word (and never the last character unless full_delete), for the predicate's verdict on exactly those characters.",
-    not_covered=['corrupt::edit_word itself (candidate filtering, exclusion-set re-indexing): closures over impl-Trait parameters and HashSet iterator chains', 'chains of repeated edits (corrupt_spelling)'],
-    assumptions=['CharString::get returns the n-th character text (verified in C16)', 'std::borrow::Cow stand-in (only Cow::Borrowed is constructed)'],
-    domain=['ReplaceEdits::get_edits: non-empty word (documented by its expect)', 'SwapEdits::can_edit: idx < usize::MAX'],
+    claim="corrupt::edit_word (all four arms; the iterator chains desugared by rules R26/R28/R29): never panics on the stated domain and returns EITHER the word and the exclusion set unchanged OR exactly one edit of an ENABLED kind: insert (table offers string t at position i <= n, i and i-1 not excluded; out = chars[..i] + t + chars[i..]; new exclusions = old ones shifted by |t| characters from i on, plus [i, i+|t|)), delete (provider allows position i < n, i not excluded; out = chars[..i] + chars[i+1..]; exclusions above i shifted down by one), replace (table offers t at i < n, i not excluded; out = chars[..i] + t + chars[i+1..]; exclusions above i shifted by |t|-1, plus [i, i+|t|), including the empty replacement), swap (provider allows i, i+1 < n, neither excluded; out = chars[..i] + chars[i+1] + chars[i] + chars[i+2..]; exclusions plus {i, i+1}); |t| is the number of characters of t in the word's own unit (code points or grapheme clusters); in every case the new exclusion set lies within the new word (character level). Providers: InsertEdits/ReplaceEdits::get_edits: no arithmetic fault for every position and word (incl. position 0 and the empty word for insert), the looked-up context is (previous character or <bow>, character or <eow>[, next or <eow>]); DeleteEdits/SwapEdits::can_edit: true only inside the word (and never the last character unless full_delete), for the predicate's verdict on exactly those characters.",
+    not_covered=['chains of repeated edits (corrupt_spelling): the chain invariant (exclusions within the word) is the postcondition/precondition pair of edit_word, the loop around it is not a unit',
+                 'the trait interfaces GetEdits / CanEdit / Rng are declared by hand in the prelude (their implementations are the provider units, verified against their own contracts, not against the trait contract); sample_edit (WeightedIndex) is assumed to return one of the edits',
+                 'grapheme segmentation of the edited STRING (the result is specified as a character sequence spliced from the old characters and t)'],
+    assumptions=['CharString::new/len/get/sub (get and sub are verified in C16 against the real CharString)', 'a string is the concatenation of its characters', 'std::borrow::Cow stand-in (only Cow::Borrowed is constructed)',
+                 'HashSet idioms: into_iter().map(f).collect() is the image of the set; Option::unwrap_or_default; vstd HashSet contains/insert', 'String + &str appends',
+                 'rand random_range(a..b) returns a value in the range and panics on an empty range'],
+    domain=['excluded positions lie inside the word (maintained by a chain of edit_word calls: postcondition `within`)', 'table entries can be sampled (non-empty edits, weights accepted by WeightedIndex)',
+            'ReplaceEdits::get_edits: non-empty word (documented by its expect)', 'SwapEdits::can_edit: idx < usize::MAX'],
 )
 
 _F1_ATTRS = """#[cfg_attr(kani, kani::requires(tp < (1 << %(bits)d) && fp < (1 << %(bits)d) && fn_ < (1 << %(bits)d) && (beta == 0.5 || beta == 1.0 || beta == 2.0)))]
